@@ -76,6 +76,7 @@ class PathCtx:
         self.pc: list = []
         self.assumptions: list = []
         self.solver = z3.Solver()
+        self.query_timeout_ms = query_timeout_ms
         self.solver.set("timeout", query_timeout_ms)
         self.pending: list = []
         self.stats = stats
@@ -147,6 +148,7 @@ class PathCtx:
         """decide a branch condition; decisions are recorded as (taken, structural hash of the
         condition, pinned integer value or None) so that a re-execution that diverges from the
         recorded prefix is detected instead of silently mis-applied"""
+        h = cond.hash()  # of the raw term: built deterministically by the executed python code
         cond = z3.simplify(cond)
         if z3.is_true(cond):
             return True
@@ -156,7 +158,6 @@ class PathCtx:
         if key in self.decided:
             return self.decided[key]
         self.stats.decisions += 1
-        h = cond.hash()
         if self.pos < len(self.decisions):
             d, h0, _v = self.decisions[self.pos]
             if h0 != h:
@@ -320,6 +321,7 @@ class SymEnv:
         self.keep_smt = keep_smt
         self.notes: dict = {}
         self.observed: list = []
+        self.exact_first_ms = 0  # scenarios with non-linear identities set this (ms)
 
     # --- inputs
     def real(self, name, lo=None, hi=None, lo_open=False, hi_open=False, dim=None):
@@ -421,6 +423,7 @@ class SymEnv:
     def close(self, name, a, b, scale=1, eps=EPS, info=False):
         """|a-b| <= eps*scale for every element"""
         cl = []
+        exact = []
         tol = as_term(eps) * as_term(scale) if not isinstance(scale, SymReal) else as_term(eps) * scale.t
         for _idx, x, y in _flatten_pairs(a, b):
             xs, ys = V.terms_of(x), V.terms_of(y)
@@ -434,6 +437,18 @@ class SymEnv:
                 if z3.is_rational_value(d) and d.numerator_as_long() == 0:
                     continue
                 cl.append(z3.And(d <= tol, -d <= tol))
+                exact.append(d == 0)
+        if cl and self.exact_first_ms and not info:
+            # exact polynomial identities are decided much faster than their tolerance form
+            self.p.solver.set("timeout", self.exact_first_ms)
+            r, _ = self.p._check(z3.Not(z3.And(*exact)))
+            self.p.solver.set("timeout", self.p.query_timeout_ms)
+            if r == "unsat":
+                st = self.p.stats
+                st.obligations += 1
+                st.discharged += 1
+                self.obligations.append(Obligation(name, "unsat", 0.0, detail="exact", path=[bool(d[0]) for d in self.p.decisions[: self.p.pos]]))
+                return True
         if not cl:
             # syntactically identical
             st = self.p.stats
@@ -508,6 +523,7 @@ class ConcEnv:
         self.eps_factor = eps_factor
         self.notes: dict = {}
         self.observed: list = []
+        self.exact_first_ms = 0
 
     def observe(self, name, value):
         self.observed.append((name, value))
